@@ -201,7 +201,10 @@ class CoqFamily:
             shards = [cases[i:i + per_file] for i in range(0, len(cases), per_file)]
             files = []
             for k, sh_cases in enumerate(shards):
-                t = [header, "Definition the_cases := ["]
+                # the element type is the domain of check_case: without it a shard whose cases all carry an empty
+                # list in some position cannot be elaborated ("cannot infer the implicit parameter A of nil")
+                t = [header, "Definition the_cases : list ltac:(let t := type of check_case in "
+                             "match eval cbv beta in t with ?T -> bool => exact T end) := ["]
                 t.append(";\n".join(sh_cases))
                 t.append("].")
                 t.append("Fixpoint bad_idx {A} (f : A -> bool) (l : list A) (i : Z) : list Z :=")
